@@ -17,7 +17,7 @@ def run(ctx):
     ctx.build_harness()
     ctx.tlc_must_pass("MC_Decoder", "MC_Decoder_q" if quick else "MC_Decoder_t", timeout=3000)
     ctx.tlc_must_pass("MC_Decoder", "MC_Decoder_full2", timeout=3000)      # every byte value, |w| <= 2
-    fams = ["opsweep", "corpus-nocuts", "random", "alphabet", "splice"]
+    fams = ["opsweep", "corpus-nocuts", "random", "alphabet", "splice", "meta"]
     cov = deccheck.run_decoder_traces(ctx, fams, 2000 if quick else 120000, KINDS,
                                       "decoder disagrees with the FFV0 grammar")
     mc = dict(distinct=sum(m["distinct"] for m in ctx.mc), generated=sum(m["generated"] for m in ctx.mc))
